@@ -307,6 +307,12 @@ func runC12(r *Report, tier string) {
 		r.floor("R12.6", np, 2, "success paths of the digest-length check")
 		checkHashTable(r, "R12.6")
 	}
+	// "which VerifyHashEnvelope accepts": what the producer's encoders let
+	// through must not be refused by the decode side's configuration
+	r.rule("R08.6", "(shared with C08) the unprotected-bucket encoder refuses values that encode to CBOR tags at any depth (the envelope decode mode forbids them).")
+	checkUnprotectedEncoderTagFree(r, "R08.6")
+	r.rule("R07.3", "(shared with C07) the decode modes set no element/nesting/pair limit below the library default: the encoder has no matching bound.")
+	checkDecoderLimits(r, "R07.3")
 }
 
 // checkHashTable: the algorithm -> crypto.Hash table (shared with C17).
